@@ -463,10 +463,12 @@ func ruleHandlerBeforeSend(c *core.Ctx, a *epAnchors, rule string) {
 			return false
 		}
 		k := call.Common()
-		if !(k.IsInvoke() && k.Method.Name() == "RemoveHandler") {
+		rargs, isRm := epCall(c, call, "RemoveHandler")
+		if !isRm || len(rargs) == 0 {
 			return false
 		}
-		cr, _ := core.CallResult(k.Args[0])
+		_ = k
+		cr, _ := core.CallResult(core.StripConv(rargs[0]))
 		return cr != nil && ssa.CallInstruction(cr) == cc.make
 	}
 	// returns reachable on the error side only
@@ -733,6 +735,20 @@ func ruleSubscriptionsClose(c *core.Ctx, a *epAnchors) {
 				return core.Canon(a)
 			}
 		}
+		// s.queue, s being the subscription state Subscribe made and handed over
+		if ld, ok := v.(*ssa.UnOp); ok && ld.Op == token.MUL {
+			if fa, ok := ld.X.(*ssa.FieldAddr); ok {
+				if p, ok := core.Canon(fa.X).(*ssa.Parameter); ok {
+					if a, ok := goArgs[p]; ok {
+						if al, ok := core.Canon(a).(*ssa.Alloc); ok {
+							if d := core.SingleFieldDef(al, fa.Field); d != nil {
+								return core.Canon(d)
+							}
+						}
+					}
+				}
+			}
+		}
 		return v
 	}
 	if goFn == nil {
@@ -799,9 +815,10 @@ func ruleSubscriptionsClose(c *core.Ctx, a *epAnchors) {
 		for _, f := range core.AnonFuncs(goFn) {
 			for _, call := range core.Calls(f) {
 				cc := call.Common()
-				if cc.IsInvoke() && cc.Method.Name() == "RemoveHandler" {
+				if _, isRm := epCall(c, call, "RemoveHandler"); isRm {
 					removes = append(removes, call)
 				}
+				_ = cc
 			}
 		}
 		for _, rm := range removes {
@@ -856,7 +873,8 @@ func ruleSubscriptionsClose(c *core.Ctx, a *epAnchors) {
 				}
 				for _, call := range core.Calls(f) {
 					cc := call.Common()
-					if cc.IsInvoke() && cc.Method.Name() == "RemoveHandler" && bad == "" {
+					if _, isRm := epCall(c, call, "RemoveHandler"); isRm && bad == "" {
+						_ = cc
 						bad = "RemoveHandler is called (at " + c.Pos(call.Pos()) + ") outside the forwarding goroutine, which alone knows whether the queue is still open: a cancel arriving after the endpoint dropped the handler removes whatever registration has taken the freed slot since (another subscriber's channel is closed)"
 					}
 				}
